@@ -12,7 +12,7 @@
  *   unbind <slot>
  *   unbindid <id>
  *   emit <ev>                         pen: 1 = ON_CHANGE (attribute change)
- *                                     term: 1 = ON_RESIZE (set_size), 2 = ON_KEY (emit_key), 3 = ON_MOUSE (emit_mouse)
+ *                                     term: 1 = ON_RESIZE (set_size), 2 = ON_KEY (emit_key or input_push_bytes), 3 = ON_MOUSE (emit_mouse)
  *   destroy                           unref to zero
  *
  * Observation: the call log of the operation.
@@ -96,8 +96,13 @@ static void do_emit(int ev)
       tickit_term_set_size(tt, term_lines, term_cols);
     }
     else if(ev == 2) {
-      TickitKeyEventInfo info = { .type = TICKIT_KEYEV_TEXT, .mod = 0, .str = "a" };
-      tickit_term_emit_key(tt, &info);
+      /* two routes to run_events_whilefalse(tt, TICKIT_TERM_ON_KEY): the emit API and the input path (got_key) */
+      if(emit_counter % 3 == 0)
+        tickit_term_input_push_bytes(tt, "a", 1);
+      else {
+        TickitKeyEventInfo info = { .type = TICKIT_KEYEV_TEXT, .mod = 0, .str = "a" };
+        tickit_term_emit_key(tt, &info);
+      }
     }
     else if(ev == 3) {
       TickitMouseEventInfo info = { .type = TICKIT_MOUSEEV_PRESS, .button = 1, .mod = 0, .line = 2, .col = 3 };
